@@ -116,6 +116,14 @@ let handle (line:string) : string =
       let acts = dequeue_external (bytes_of_hex evid) (hexlist finalizers) (hexlist autofwd) (hexlist invokers) in
       String.concat "," (List.map (function ASetEvent -> "set" | AFinalize i -> "fin:" ^ hex_of_bytes i
                                           | AForward i -> "fwd:" ^ hex_of_bytes i | AMatch -> "match") acts)
+  | ["teardown"; sticky; d; labels] ->
+      let k = (sticky = "1") in
+      let d = (match d with "read" -> DRead | "enter" -> DEnter | "loop" -> DLoop | _ -> DEnd) in
+      let lab = function "d_read" -> TD_read | "d_enter" -> TD_enter | "d_wake" -> TD_wake | "t_clear" -> TT_clear
+                       | "t_break" -> TT_break | "t_join" -> TT_join | s -> failwith ("tlabel " ^ s) in
+      (match trun k (tst_init d) (List.map lab (csv labels)) with
+       | None -> "err"
+       | Some s -> Printf.sprintf "stuck=%s returned=%s" (b2s (tstuck k s)) (b2s (s.tp = TRet)))
   | ["oracle"; mea; bi; ai; bu; au; exited; dn; alone; c2u1; begun; aret; csteps; ms; stuck] ->
       let n x = nat_of_int (int_of_string x) in
       let o = { o_macro_end_active = (mea = "1"); o_before_inv = n bi; o_after_inv = n ai; o_before_uninv = n bu; o_after_uninv = n au;
